@@ -77,9 +77,11 @@ def parseLabel (toks : List String) : Option Label :=
   | ["cancelRl", b] => some (.cancelRl b.toNat!)
   | ["rlCancelled", b] => some (.rlCancelled b.toNat!)
   | ["rlDropExit", b] => some (.rlDropExit b.toNat!)
-  | ["expectBegin", x, b, key, k, pred, to] => some (.expectBegin x.toNat! b.toNat! key.toNat! k.toNat! pred.toNat! to.toNat!)
+  | ["expectBegin", x, b, key, k, pred, to] => some (.expectBegin x.toNat! b.toNat! key.toNat! k.toNat! pred.toNat! (if to == "-" then none else some to.toNat!))
   | ["expectEnd", x, got] => some (.expectEnd x.toNat! (optNat got))
   | ["expectCancel", x] => some (.expectCancel x.toNat!)
+  | ["expectTimeout", x] => some (.expectTimeout x.toNat!)
+  | ["expectCancelReq", x] => some (.expectCancelReq x.toNat!)
   | _ => none
 
 def labelKind (l : Label) : String :=
@@ -100,7 +102,7 @@ def labelKind (l : Label) : String :=
   | .stopBegin .. => "stopBegin" | .stopNoop .. => "stopNoop" | .stopEnd .. => "stopEnd" | .rlExit .. => "rlExit"
   | .cancelRl .. => "cancelRl" | .rlCancelled .. => "rlCancelled" | .rlDropExit .. => "rlDropExit" | .expectBegin .. => "expectBegin"
   | .expectEnd _ g => s!"expectEnd.{if g.isSome then "match" else "timeout"}"
-  | .expectCancel .. => "expectCancel"
+  | .expectCancel .. => "expectCancel" | .expectTimeout .. => "expectTimeout" | .expectCancelReq .. => "expectCancelReq"
 
 def statusStr : EStatus → String | .pending => "pending" | .started => "started" | .completed => "completed"
 def rstatusStr : Status → String | .pending => "pending" | .started => "started" | .completed => "completed" | .error => "error"
@@ -348,6 +350,16 @@ partial def loop (h : IO.FS.Stream) (s : St) : IO Unit := do
       let sg := hangSigs s.w s.m e.toNat!
       if !(sg.contains "stop-drop" || sg.contains "stopped-backlog") then
         printVios (if s.diverged then s.sc ++ "~" else s.sc) s.line [{ prop := "C03", clause := "hang", sigs := sg, detail := s!"external await of event {e} never returns" }]
+      loop h s
+    | ["expectHang", x] =>
+      -- at rest, a task is still inside expect(): fine while it has neither a match nor a passed deadline
+      (match s.w.waiter x.toNat! with
+       | .expecting _ _ _ d got _ =>
+         let overdue := match d with | some d => d < s.w.now | none => false
+         if got.isSome || overdue then
+           printVios (if s.diverged then s.sc ++ "~" else s.sc) s.line [{ prop := "C18", clause := "hang", sigs := [], detail := s!"expect() of task {x} never returns (match {got}, deadline {d}, now {s.w.now})" }]
+         else pure ()
+       | _ => pure ())
       loop h s
     | ["waitIdleHang", b] =>
       let sg := busHangSigs s.w s.m b.toNat!
